@@ -7,6 +7,10 @@
 // only reports Submit, or an instrumented manual executor whose n worker fibers pick any queued job (the explorer
 // chooses which).  An optional bystander fiber (a plain thread, no coroutine) calls TryLock / UnlockHere.
 //
+// Guard-object forms: a UniqueGuard / StickyGuard constructed with std::defer_lock (or reused after an unlock) on which
+// TryLock() / Lock() are called; after every call OwnsLock() must equal the answer; the guard unlocks (Unlock / UnlockOn /
+// UnlockHere / destructor) only if it owns; a guard that failed to lock just goes out of scope; guards are moved and swapped.
+//
 // ORACLE (property text only):
 //   * the overlap counter of critical sections never exceeds 1;
 //   * TryLock / TryGuard succeed only when nobody is inside;
@@ -21,7 +25,8 @@
 //   cfg ...           the configuration (first token)
 //   sub<e> <id>       Submit of coroutine <id> to executor <e>            run<e> <id>   manual worker starts it
 //   st<id>            coroutine runs for the first time on its executor
-//   q<id> <L|G|S>     request begins (Lock / Guard / GuardSticky)          t<id> <T|U>   TryLock / TryGuard begins
+//   q<id> <L|G|S>     request begins (Lock / Guard / GuardSticky, also guard.Lock())   t<id> <T|U|D>  TryLock / TryGuard /
+//                     guard.TryLock() begins                                  n<id>  a StickyGuard is constructed (defer_lock)
 //   ty<id> / tn<id>   TryLock answered true / false
 //   in<id>            critical section entered                              h<id>         resumed after a hop inside
 //   x<id> <A|O<e>|H|S>  critical section left, unlock form: co_await Unlock / UnlockOn(e) / UnlockHere or guard
@@ -35,7 +40,20 @@
 
 namespace {
 
-enum LockForm { kLock = 0, kGuard = 1, kSticky = 2, kTryLock = 3, kTryGuard = 4 };
+enum LockForm {
+  kLock = 0,
+  kGuard = 1,
+  kSticky = 2,
+  kTryLock = 3,
+  kTryGuard = 4,
+  // forms on a guard OBJECT (guard.hpp / guard_sticky.hpp members)
+  kDeferTry = 5,         // UniqueGuard g{m, std::defer_lock}; g.TryLock()
+  kDeferLock = 6,        // UniqueGuard g{m, std::defer_lock}; co_await g.Lock()
+  kStickyDeferTry = 7,   // StickyGuard g{m, std::defer_lock}; g.TryLock()
+  kStickyDeferLock = 8,  // StickyGuard g{m, std::defer_lock}; co_await g.Lock()
+  kReuseTry = 9,         // g = co_await m.Guard(); ... g.UnlockHere(); then g.TryLock() on the same guard, moved and swapped
+  kStickyReuseTry = 10   // the same with GuardSticky()
+};
 enum UnlockForm { kUnlock = 0, kUnlockOn = 1, kUnlockHere = 2, kDtor = 3 };
 
 struct Round {
@@ -240,6 +258,88 @@ std::string UForm(const Round& rd, bool sticky) {
   }
 }
 
+
+// One round through a guard OBJECT of type GUARD<M>; STICKY tells which marker letters to use.
+#define VRT_GUARD_OBJECT_ROUND(GUARD, STICKY)                                                                           \
+  {                                                                                                                    \
+    bool got = false;                                                                                                  \
+    {                                                                                                                  \
+      GUARD<M> g{*m, std::defer_lock};                                                                                 \
+      if (STICKY) {                                                                                                    \
+        vrt::Event("n" + Ctx::S(id));                                                                                  \
+      }                                                                                                                \
+      if (g.OwnsLock()) {                                                                                              \
+        Verdict("a deferred guard owns the lock");                                                                     \
+      }                                                                                                                \
+      const bool reuse = rd.lock == kReuseTry || rd.lock == kStickyReuseTry;                                           \
+      const bool lockform = rd.lock == kDeferLock || rd.lock == kStickyDeferLock;                                      \
+      if (reuse) {                                                                                                     \
+        c->Req(id, STICKY ? "S" : "G");                                                                                \
+        if constexpr (std::is_same_v<GUARD<M>, yaclib::StickyGuard<M>>) {                                              \
+          g = co_await m->GuardSticky();                                                                               \
+        } else {                                                                                                       \
+          g = co_await m->Guard();                                                                                     \
+        }                                                                                                              \
+        c->Enter(id);                                                                                                  \
+        c->Tick();                                                                                                     \
+        c->Leave(id, "H");                                                                                             \
+        g.UnlockHere();                                                                                                \
+        c->Out(id);                                                                                                    \
+        if (g.OwnsLock()) {                                                                                            \
+          Verdict("the guard still owns the lock after UnlockHere()");                                                 \
+        }                                                                                                              \
+      }                                                                                                                \
+      if (lockform) {                                                                                                  \
+        c->Req(id, STICKY ? "S" : "L");                                                                                \
+        co_await g.Lock();                                                                                             \
+        if (!g.OwnsLock()) {                                                                                           \
+          Verdict("OwnsLock() is false after co_await guard.Lock()");                                                  \
+        }                                                                                                              \
+        got = true;                                                                                                    \
+      } else {                                                                                                         \
+        vrt::Event("t" + Ctx::S(id) + " D");                                                                           \
+        const bool ok = g.TryLock();                                                                                   \
+        if (g.OwnsLock() != ok) {                                                                                      \
+          Verdict(std::string("guard.TryLock() answered ") + (ok ? "true" : "false") + " but OwnsLock() is " +        \
+                  (g.OwnsLock() ? "true" : "false"));                                                                  \
+        }                                                                                                              \
+        got = c->TryResult(id, ok);                                                                                    \
+      }                                                                                                                \
+      if (got) {                                                                                                       \
+        c->Enter(id);                                                                                                  \
+        c->Tick();                                                                                                     \
+        if (rd.hop >= 0) {                                                                                             \
+          co_await yaclib::On(*c->exe[static_cast<std::size_t>(rd.hop)]);                                              \
+          vrt::Event("h" + Ctx::S(id));                                                                                \
+        }                                                                                                              \
+        if (reuse) { /* ownership follows the guard through a move and a swap */                                       \
+          GUARD<M> g2{std::move(g)};                                                                                   \
+          if (g.OwnsLock() || !g2.OwnsLock()) {                                                                        \
+            Verdict("ownership did not move with the guard");                                                          \
+          }                                                                                                            \
+          g.Swap(g2);                                                                                                  \
+          if (!g.OwnsLock() || g2.OwnsLock()) {                                                                        \
+            Verdict("ownership did not follow Swap");                                                                  \
+          }                                                                                                            \
+        }                                                                                                              \
+        c->Leave(id, UForm(rd, STICKY));                                                                               \
+        if (rd.unlock == kUnlock) {                                                                                    \
+          co_await g.Unlock();                                                                                         \
+        } else if (rd.unlock == kUnlockOn) {                                                                           \
+          co_await g.UnlockOn(*c->exe[static_cast<std::size_t>(rd.on)]);                                               \
+        } else if (rd.unlock == kUnlockHere) {                                                                         \
+          g.UnlockHere();                                                                                              \
+        }                                                                                                              \
+        if (rd.unlock != kDtor && g.OwnsLock()) {                                                                      \
+          Verdict("the guard still owns the lock after it unlocked");                                                  \
+        }                                                                                                              \
+      }                                                                                                                \
+    } /* a guard that does not own does nothing here; kDtor: an owning guard unlocks */                                \
+    if (got) {                                                                                                         \
+      c->Out(id);                                                                                                      \
+    }                                                                                                                  \
+  }
+
 template <typename M>
 yaclib::Future<> Co(Ctx* c, M* m, int id) {
   auto self = co_await Self{};
@@ -308,6 +408,18 @@ yaclib::Future<> Co(Ctx* c, M* m, int id) {
           }
         }  // kDtor: ~UniqueGuard unlocks here
         c->Out(id);
+        break;
+      }
+      case kDeferTry:
+      case kDeferLock:
+      case kReuseTry: {
+        VRT_GUARD_OBJECT_ROUND(yaclib::UniqueGuard, false)
+        break;
+      }
+      case kStickyDeferTry:
+      case kStickyDeferLock:
+      case kStickyReuseTry: {
+        VRT_GUARD_OBJECT_ROUND(yaclib::StickyGuard, true)
         break;
       }
       default: {
@@ -508,7 +620,7 @@ void Run(const Cfg& cfg) {
   }
 }
 
-const char* kLockNames[] = {"L", "G", "S", "T", "U"};
+const char* kLockNames[] = {"L", "G", "S", "T", "U", "D", "E", "V", "W", "R", "Q"};
 const char* kUnlockNames[] = {"a", "o", "h", "d"};
 
 std::string Describe(const Cfg& cfg) {
@@ -549,8 +661,8 @@ Cfg Mixed(std::uint64_t seed, int kmax, int rmax, bool pool) {
     int r = 1 + pick(rmax);
     for (int j = 0; j < r; ++j) {
       Round rd;
-      int l = pick(10);
-      rd.lock = l < 3 ? kLock : l < 5 ? kGuard : l < 8 ? kSticky : l < 9 ? kTryLock : kTryGuard;
+      int l = pick(16);
+      rd.lock = l < 3 ? kLock : l < 5 ? kGuard : l < 8 ? kSticky : l < 9 ? kTryLock : l < 10 ? kTryGuard : kDeferTry + (l - 10);
       rd.unlock = pick(rd.lock == kLock || rd.lock == kTryLock ? 3 : 4);
       rd.on = pick(nexe);
       rd.hop = pick(6) == 0 ? pick(nexe) : -1;
@@ -595,6 +707,33 @@ int main(int argc, char** argv) {
                                                 : Round{kSticky, kUnlock, 0, -1});
                 cfg.cos = {a, b};
                 std::string name = std::string(hop ? "k2h/" : "k2/") + opt_names[opt] + (pool ? "/pool" : "/man") +
+                                   std::to_string(n) + "/" + kLockNames[lf] + kUnlockNames[uf] + "-" +
+                                   std::to_string(other);
+                m.Scenario(name, [cfg] {
+                  Run(cfg);
+                });
+              }
+            }
+          }
+        }
+      }
+      // guard-object forms against a plain holder (k2gh: the holder is rescheduled inside its critical section, so the
+      // guard's TryLock() fails / its Lock() queues)
+      for (int n = 1; n <= 2; ++n) {
+        for (int hop = 0; hop < 2; ++hop) {
+          for (int lf = kDeferTry; lf <= kStickyReuseTry; ++lf) {
+            for (int uf = 0; uf < 4; ++uf) {
+              for (int other = 0; other < 2; ++other) {
+                Cfg cfg;
+                cfg.batching = (opt & 2) != 0;
+                cfg.fifo = (opt & 1) != 0;
+                cfg.pool = pool != 0;
+                cfg.workers = {n};
+                CoSpec a, b;
+                a.rounds.push_back(Round{kLock, other == 0 ? kUnlock : kUnlockHere, 0, hop ? 0 : -1});
+                b.rounds.push_back(Round{lf, uf, 0, -1});
+                cfg.cos = {a, b};
+                std::string name = std::string(hop ? "k2gh/" : "k2g/") + opt_names[opt] + (pool ? "/pool" : "/man") +
                                    std::to_string(n) + "/" + kLockNames[lf] + kUnlockNames[uf] + "-" +
                                    std::to_string(other);
                 m.Scenario(name, [cfg] {
